@@ -161,7 +161,8 @@ pub fn dict_fields(rng: &mut Rng, var: &Variant, e: &Entries, p: i32, encrypt_me
         2 => f.bits = Some(8 * var.n as i64),
         4 => {
             // the key length may be stated in the dictionary, in the crypt filter (in bytes), or both
-            let mode = if var.n == 5 { rng.below(3) } else { 1 + rng.below(2) };
+            // no /Length at all: the 40 bit default for RC4; AESV2 has 128 bits by definition
+            let mode = if var.n == 5 || var.cipher == Cipher::Aes128 { rng.below(3) } else { 1 + rng.below(2) };
             let mut cf_len = None;
             match mode {
                 0 => desc_len = "noLength",
@@ -385,6 +386,8 @@ pub enum Tweak {
     LengthZero,
     /// `/Length 4` with V 4: below one byte
     LengthFour,
+    /// no `/Length` anywhere (neither in the dictionary nor in the crypt filter)
+    NoLength,
     /// `/UE <>`
     EmptyUE,
     /// `/UE` and `/OE` of 16 bytes
@@ -507,6 +510,10 @@ pub fn build(rng: &mut Rng, opt: &DocOptions, user_pw: &[u8], owner_pw: &[u8]) -
         }
         Some(Tweak::LengthFour) => {
             fields.bits = Some(4);
+            for cf in fields.cf.iter_mut() { cf.2 = None; }
+        }
+        Some(Tweak::NoLength) => {
+            fields.bits = None;
             for cf in fields.cf.iter_mut() { cf.2 = None; }
         }
         Some(Tweak::EmptyUE) => fields.ue = Some(vec![]),
